@@ -189,6 +189,10 @@ fn framings() -> Vec<Framing> {
     v.push(Framing { prio: Some((false, 0, 200)), ..Default::default() });
     v.push(Framing { prio: Some((true, 3, 255)), end_stream: true, ..Default::default() });
     v.push(Framing { prio: Some((true, 0x7fff_ffff, 0)), pad: Some(3), ..Default::default() });
+    // PADDED and PRIORITY together: pad length and weight differ in both directions (and coincide once)
+    v.push(Framing { prio: Some((false, 1, 200)), pad: Some(3), ..Default::default() });
+    v.push(Framing { prio: Some((false, 1, 1)), pad: Some(7), end_stream: true, ..Default::default() });
+    v.push(Framing { prio: Some((true, 5, 7)), pad: Some(7), splits: vec![2], ..Default::default() });
     v.push(Framing { splits: vec![1], ..Default::default() });
     v.push(Framing { splits: vec![2, 5], ..Default::default() });
     v
@@ -324,7 +328,7 @@ pub fn run(thorough: bool) -> Outcome {
     let _ = thorough;
     Outcome {
         report: total,
-        rule: "frame sequences from descriptions: SETTINGS lists (<=3 parameters over 11 ids x 6 values, 0 and 12 parameters) x connection/stream WINDOW_UPDATE variants x preface; PRIORITY with all 256 weights x exclusive x stream/dependency, 0..3 frames; 28 pseudo-header orders x 11 HEADERS framings (END_STREAM, PADDED 0/1/7/255, PRIORITY, CONTINUATION splits) x stream ids; surrounding PING/unknown/DATA frames; incremental extractor on every 2- and 3-partition (and the 1-byte partition) of 5 stream families with and without preface; distinct = distinct fingerprint strings / chunk outcomes".into(),
+        rule: "frame sequences from descriptions: SETTINGS lists (<=3 parameters over 11 ids x 6 values, 0 and 12 parameters) x connection/stream WINDOW_UPDATE variants x preface; PRIORITY with all 256 weights x exclusive x stream/dependency, 0..3 frames; 28 pseudo-header orders x 14 HEADERS framings (END_STREAM, PADDED 0/1/7/255, PRIORITY, PADDED+PRIORITY with pad length <, >, = weight, CONTINUATION splits) x stream ids; surrounding PING/unknown/DATA frames; incremental extractor on every 2- and 3-partition (and the 1-byte partition) of 5 stream families with and without preface; distinct = distinct fingerprint strings / chunk outcomes".into(),
         exhaustive: true,
         bounds: json!({"settings_lists": sl.len(), "chunk_families": families.len()}),
     }
